@@ -126,7 +126,7 @@ func registerAll() {
 	}
 	propTable["C04"] = &PropSpec{
 		ID:          "C04",
-		Rules:       []string{"D1", "D2", "D3", "D4", "S6", "G2"},
+		Rules:       []string{"D1", "D2", "D3", "D4", "S6", "G2", "S2"},
 		Explanation: "no Go-map iteration order can reach results: every map range in deterministic code is collect-then-sort or commutative, order-relaxed routines are unreachable from deterministic entry points; the deterministic commit walks, first to last, a slice that its collector sorts on every path with a comparator that is decided by order abstraction (all 9 address x index orderings) to be ascending (owner, index), with big-endian integer views; worker results are applied by key only after the drain; the map seed derives only from the fresh slab id / an existing seed; pooled objects are Reset before reuse and Reset covers every field read; no clock, randomness, address or scheduling source is imported or used.",
 		NotDecided:  "determinism of client Value/TypeInfo encoders and of the CBOR library; byte-identity of two executions as such.",
 		Technique:   "map-range classification over SSA loops, order-abstraction interpretation of the sort comparator, backward slices (seed), import/AST scan",
